@@ -235,6 +235,13 @@ class Runner:
             return "downstream"
         return f"c_accumulate:{line}"
 
+    def mult(self, nrows, ncols, fd, cap):
+        """how many times one source can add to one cell: 1 on an acyclic grid, up to the number of iterations on a cycle"""
+        n = nrows * ncols
+        if n == 0 or Flow(nrows, ncols, fd, self.offsets).acyclic:
+            return 1
+        return (n if cap is None or cap == -1 else max(int(cap), 1)) + 1
+
     # -- one call through the public wrapper
     def wrapper_case(self, nrows, ncols, fd, field, nodata, cap, fd_dtype="int64", f_dtype="float64",
                      tag="", origin="gen"):
@@ -274,7 +281,7 @@ class Runner:
         else:
             req = f"acc {nrows} {ncols} {self.codes_tok} {C.ilist(fd_seen)} {capm} {C.f2h(nd)} {C.flist(fvals)}"
         self.reqs.append(req)
-        self.info.append((case, impl, fvals, nd))
+        self.info.append((case, impl, fvals, nd, self.mult(nrows, ncols, fd_seen, cap)))
         # inputs unchanged (values; the wrapper may change the dtype of the grids it was given)
         if not np.array_equal(fdg.data.astype(np.float64), fd_before.astype(np.float64)):
             ctx.finding("accumulate/input_altered/flowdir", "cell values of the flow-direction grid changed during the call", case)
@@ -295,7 +302,7 @@ class Runner:
         impl = ("ok", [float(v) for v in acc.ravel()]) if ierr == 0 else ("err", self.err_kind(ierr))
         self.reqs.append(f"cacc {nrows} {ncols} {self.codes_tok} {C.ilist(fd)} {cap} {C.f2h(nodata)} "
                          f"{C.flist(fvals)} {C.flist(acc0)}")
-        self.info.append((case, impl, list(fvals) + list(acc0), nodata))
+        self.info.append((case, impl, list(fvals) + list(acc0), nodata, self.mult(nrows, ncols, fd, cap)))
         if not np.array_equal(fda, fd_b):
             ctx.finding("accumulate/input_altered/flowdir", "the kernel wrote into the flow-direction buffer", case)
         if not np.array_equal(fa, f_b, equal_nan=True):
@@ -369,14 +376,11 @@ class Runner:
         fdg.data = np.array(fd, dtype=np.int64).reshape(nrows, ncols)
         ca = G.Catchment("c11", fdg)
         got = [int(v) for v in ca.downstream(list(range(n)))]
-        fl = Flow(nrows, ncols, fd, self.offsets)
         case = {"nrows": nrows, "ncols": ncols, "flowdir": list(fd), "via": "downstream"}
         self.reqs.append(f"down {nrows} {ncols} {self.codes_tok} {C.ilist(fd)} {C.ilist(range(n))}")
-        self.info.append((case, ("raw", C.ilist(got)), [], 0.0))
+        # only "which cell, or none" matters to accumulation: -2 (sink) and -1 (exit / unknown code) are one token
+        self.info.append((case, ("raw", C.slist("T" if d < 0 else d for d in got)), [], 0.0, 1))
         ctx.count(("d", nrows, ncols, tuple(fd)), any(d >= 0 for d in got), "downstream")
-        if got != fl.down:
-            ctx.finding("downstream/not_neighbour_in_code_direction", "downstream cell differs from the neighbour in the direction of the code",
-                        {**case, "got": got, "expected": fl.down})
 
     # -- correspondence
     def flush(self):
@@ -384,8 +388,9 @@ class Runner:
         for start in range(0, len(self.reqs), 40000):
             chunk = self.reqs[start:start + 40000]
             replies = ctx.lean.ask(chunk)
-            for req, (case, impl, mags, nd), rep in zip(chunk, self.info[start:start + 40000], replies):
+            for req, (case, impl, mags, nd, mult), rep in zip(chunk, self.info[start:start + 40000], replies):
                 if impl[0] == "raw":
+                    rep = C.slist("T" if t.startswith("-") else t for t in C.parse_list(rep))
                     if impl[1] != rep:
                         ctx.disagree("C11: downstream differs from the model", {"request": req[:400], **case, "impl": impl[1], "model": rep})
                     continue
@@ -395,13 +400,19 @@ class Runner:
                     if a != b:
                         ctx.disagree("C11: error behaviour differs from the model", {"request": req[:400], **case, "impl": a, "model": b})
                     continue
-                model = C.parse_flist(rep[3:])
+                vals, sens = rep[3:].split(" ")
+                model = C.parse_flist(vals)
+                # cells the model marks as depending on the visiting order of the outer loop (terminal cells
+                # incremented by a capped walk) are not constrained by the property: not compared
+                sens = {int(t) for t in C.parse_list(sens)}
                 out = impl[1]
                 scale = sum(abs(v) for v in mags if v == v and abs(v) != float("inf")) + (abs(nd) if nd == nd else 0.0)
-                tol = 4 * max(len(out), 1) * EPS * scale
+                tol = 4 * max(len(out), 1) * mult * EPS * scale
                 bad = len(model) != len(out)
                 if not bad:
                     for i, (a, b) in enumerate(zip(out, model)):
+                        if i in sens:
+                            continue
                         if not ((a != a and b != b) or a == b or abs(a - b) <= tol):
                             bad = True
                             case = {**case, "cell": i}
@@ -525,7 +536,8 @@ def _body(ctx, rng):
                 nd = float(rng.choice([0, 255]))
             field = gen_field(rng, n, kind, nd)
             f_dtype = "float64"
-            if field is not None and all(v == int(v) for v in field) and nd == nd and nd == int(nd) and rng.random() < 0.25:
+            if field is not None and all(v == int(v) and abs(v) < 2 ** 31 for v in field) and nd == nd and nd == int(nd) \
+                    and rng.random() < 0.25:
                 f_dtype = rng.choice(["int64", "int32"])
             cap = caps_for(rng, n, fl.longest)
             R.wrapper_case(nrows, ncols, fd, field, nd, cap, fd_dtype, f_dtype, tag=gk)
